@@ -16,6 +16,7 @@ if args and args[0] == "--json":
 ids = args
 env = dict(os.environ, GOFLAGS="-mod=mod", GOPROXY="off", GOSUMDB="off", GOTOOLCHAIN="local")
 env.pop("GOWORK", None)
+known_miss = set()
 def variants():
     out = []
     for p in sorted(glob.glob(f"{ROOT}/mutants/*/*.patch")):
@@ -30,6 +31,8 @@ def variants():
             if meta.get("obsolete"):
                 continue  # no longer breaks the property on the repaired tree; see meta.json
             also = meta.get("also_checked_by", [])
+            if meta.get("known_miss"):
+                known_miss.add("seeded-" + d)
             if meta.get("checked_by"):  # decided by other properties' checks than the one it was written against
                 for a in meta["checked_by"]:
                     out.append((a, "seeded-" + d, p))
@@ -56,6 +59,8 @@ def run(v):
             return (pid, name, "SKIP(does not build)", c.stdout.strip()[:300])
         fails = [l for l in c.stdout.splitlines() if l.startswith("FAILED") or l.startswith("UNDECIDED")]
         st = {0: "MISSED", 1: "detected", 2: "BROKEN(undecided)"}.get(c.returncode, f"rc={c.returncode}")
+        if name in known_miss and st != "detected":
+            st = "known-miss(" + st + ")"
         return (pid, name, st, " ;; ".join(f[:230] for f in fails[:3]))
     finally:
         shutil.rmtree(tmp, ignore_errors=True)
@@ -64,7 +69,7 @@ with ThreadPoolExecutor(jobs) as ex:
     res = list(ex.map(run, vs))
 bad = 0
 for pid, name, st, info in res:
-    if st != "detected":
+    if st != "detected" and not st.startswith("known-miss"):
         bad += 1
     print(f"{pid:4} {st:24} {name}\n       {info}")
 print(f"variants: {len(res)}, not detected: {bad}")
